@@ -240,3 +240,13 @@ Example C02_results :
     = [mkhdr wr_ex_XFoo [97;44;32;99;44;32;97;32;98]%N c_HTP_FIELD_REPEATED; mkhdr wr_ex_CL wr_ex_12 c_HTP_FIELD_REPEATED] /\
   wr_first_spelling [(wr_ex_XFoo, wr_ex_a); (wr_ex_xfoo, wr_ex_c)] wr_ex_XFOO = Some wr_ex_XFoo.
 Proof. exact wr_ex_results. Qed.
+
+(* ---- fidelity does not depend on how the request reaches the parser: every folding of the field values into continuation lines (cuts) and every
+        chunking of the resulting wire into non-empty pieces reports the request that was sent (PSegFold.v; the limit premise sg_fold_fits is exact) ---- *)
+Require Import Htp.Proof.PSeg Htp.Proof.PSegRun Htp.Proof.PSegFold.
+Theorem C02_exchange_fidelity_any_folding_any_chunking : forall cb g r (cuts : list (list bytes)) (chunks : list bytes),
+  wr_all_ok cb -> g_allow_space_uri g = false -> wr_request_ok r = true -> sg_cuts_ok r cuts = true -> sg_fold_fits g r cuts = true ->
+  Forall (fun x => x <> []) chunks -> concat chunks = sg_fold_wire r cuts ->
+  exists t, c_txs (fst (cp_run cb g connp_new (OpOpen :: map OpReqData chunks))) = [Some t] /\ wr_reported (sg_mask t) r.
+Proof. exact sg_request_fold_chunking_reported. Qed.
+Print Assumptions C02_exchange_fidelity_any_folding_any_chunking.
